@@ -58,10 +58,10 @@ def plain(f):
 PROFILES = {
     # which functions, pure bodies?, extra event kinds, threads
     "C01": dict(lifetime=True, sel=lambda f: True, pure=True, events=["tick", "invw", "tag", "invc"], threads=2),
-    "C02": dict(sel=lambda f: f["sig"] in (1, 2, 4, 5, 6, 7, 8, 9, 10), pure=True, events=[], threads=2),
+    "C02": dict(sel=lambda f: f["sig"] in (1, 2, 4, 5, 6, 7, 8, 9, 10, 11, 12), pure=True, events=[], threads=2),
     "C03": dict(pingpong=True, sel=plain, pure=True, events=[], threads=3),
-    "C09": dict(lifetime=True, sel=lambda f: f["is_result"] and not f["cache_if"], pure=False, events=["tick"], threads=1),
-    "C10": dict(lifetime=True, sel=lambda f: f["cache_if"], pure=False, events=["tick"], threads=1),
+    "C09": dict(lifetime=True, refresh=True, exactfit=True, sel=lambda f: f["is_result"] and not f["cache_if"], pure=False, events=["tick"], threads=1),
+    "C10": dict(lifetime=True, exactfit=True, sel=lambda f: f["cache_if"], pure=False, events=["tick"], threads=1),
     "C11": dict(refresh=True, lifetime=True, sel=lambda f: f["inval_on"], pure=False, events=["tick"], threads=1),
     "C12": dict(sel=lambda f: bool(f["tags"] or f["events"] or f["deps"]) or f["idx"] % 7 == 0, pure=True,
                 events=["tag", "event", "dep", "invc", "invcn"], threads=1, heavy_inval=True),
@@ -73,12 +73,12 @@ PROFILES = {
     # impure companions of C04: Result / invalidate_on / cache_if functions with an entry limit, scripted outcomes
     "C04R": dict(refresh=True, lifetime=True, sel=lambda f: f["limit"] is not None and (f["is_result"] or f["inval_on"] or f["cache_if"]),
                  pure=False, events=["tick", "invw", "invwb"], threads=1),
-    "C05": dict(sel=lambda f: f["mem"] is not None, pure=False, events=["invw"], threads=2),
+    "C05": dict(exactfit=True, sel=lambda f: f["mem"] is not None, pure=False, events=["invw"], threads=2),
     "C06": dict(async_cases=True, lifetime=True, sel=lambda f: f["ttl"] is not None, pure=True, events=["tick", "invw"], threads=2),
     "C07": dict(pingpong=True, sel=lambda f: f["pol"] in ("fifo", "lru") and (f["limit"] or f["mem"]), pure=True, events=["invw", "invall", "tag", "event", "dep", "invc"], threads=3),
     "C08": dict(scores=True, pingpong=True, sel=lambda f: f["pol"] in ("lfu", "arc", "tlru") and (f["limit"] or f["mem"]), pure=True, events=["invw", "tick", "tag", "invc"], threads=3),
     "C15": dict(sel=lambda f: f["fl"] != "t", pure=True, events=["sget", "sreset", "sgetn", "tick", "invw"], threads=3),
-    "C19": dict(scores=True, refresh=True, lifetime=True, sel=lambda f: True, pure=True, events=["tick", "tag", "invw", "sget"], threads=2),
+    "C19": dict(scores=True, refresh=True, lifetime=True, exactfit=True, sel=lambda f: True, pure=True, events=["tick", "tag", "invw", "sget"], threads=2),
     # every operation returns, also in a sequential history (a self-deadlock on a lock the hooks cannot see)
     "C17": dict(refresh=True, lifetime=True, sel=lambda f: True, pure=False,
                 events=["tick", "tag", "event", "dep", "invc", "invw", "invwb", "invall", "sget", "sreset"], threads=3),
@@ -320,6 +320,41 @@ def gen_refresh_case(r, fns, prof):
     return [f], evs
 
 
+def gen_exact_fit_case(r, fns, prof):
+    """a value whose size is exactly max_memory (or one byte either side): it fits, is stored and served; the oracle takes
+    the size from the harness, so a wrong guess of the inline size only makes the case an ordinary one"""
+    pool = [f for f in fns if prof["sel"](f) and f["mem"] and f["ret"] in (1, 3) and f["sig"] == 0 and not f["gates"]]
+    if not pool:
+        return None
+    f = r.pick(pool)
+    inline = r.pick([24, 24, 24, 32])
+    ln = f["mem"] - inline + r.pick([0, 0, 0, 0, -1, 1])
+    if ln < 0:
+        return None
+    vc = [r.below(50)]
+
+    def ev(x, ln=8, ok=True, inv=0):
+        if prof["pure"]:
+            v = (f["idx"] * 37 + x * 11) % 500 + 1
+            ok = ((x % 3 != 0) if f["is_result"] else True)
+        else:
+            vc[0] += 1
+            v = vc[0]
+        return "E 0 call %d %d 0 %s %d %d %d 1" % (f["idx"], x, "ok" if ok else "err", v, ln, inv)
+    evs = []
+    for x in range(r.below(3)):
+        evs.append(ev(4 + x, ln=r.pick(LENS[:3])))
+    x = r.pick([1, 2])
+    if f["is_result"] and not prof["pure"] and r.chance(1, 3):
+        evs.append(ev(x, ln=ln, ok=False))
+    evs.append(ev(x, ln=ln))
+    evs.append(ev(x, ln=ln))
+    if r.chance(1, 2):
+        evs.append(ev(7, ln=r.pick(LENS[:3])))
+        evs.append(ev(x, ln=ln))
+    return [f], evs
+
+
 def gen_mass_case(r, fns):
     """every cache of a large group under one label is used, the label is fired, every cache is used again"""
     group = [f for f in fns if "mass" in f["tags"]]
@@ -420,6 +455,10 @@ def gen_case(r, fns, prof, nev):
             return c
     if prof.get("heavy_inval") and r.chance(1, 12):
         c = gen_mass_case(r, fns)
+        if c:
+            return c
+    if prof.get("exactfit") and r.chance(1, 8):
+        c = gen_exact_fit_case(r, fns, prof)
         if c:
             return c
     if prof.get("refresh") and r.chance(1, 5):
